@@ -397,6 +397,56 @@ pub fn feature_nontrivial(cfg: &Cfg, chs: &[String]) -> bool {
     rel && chs.iter().any(|c| !oracle(cfg, c, false).0.is_empty())
 }
 
+pub const DU: [&str; 4] = ["caf\u{e9}", "caf\u{e9}s", "caf\u{e9}/\u{fc}", "b"];
+pub const PU_EXTRA: [&str; 5] = ["lib\u{e9}", "lib\u{e9}s", "caf\u{e9}/f", "caf", "caf\u{e9}/\u{fc}/g"];
+
+fn unicode_changes() -> Vec<String> {
+    let mut v = vec![];
+    for d in DU.iter().chain(["lib\u{e9}", "lib\u{e9}s", "caf"].iter()) {
+        v.push(format!("{}/f", d));
+        v.push(format!("{}/f\u{e9}", d));
+    }
+    v.push("caf\u{e9}".to_string() + "x/f");
+    v
+}
+
+/// the non-ASCII universe: multi-byte characters in target, uses and ignores paths
+fn run_unicode(rep: &Report, root: &Path, stage_desc: &mut Vec<Value>) -> u64 {
+    make_universe(root, &["caf\u{e9}", "caf\u{e9}s", "caf\u{e9}/\u{fc}", "b", "lib\u{e9}", "lib\u{e9}s", "caf"], &[]);
+    let chs = unicode_changes();
+    let entries: Vec<&str> = DU.iter().chain(PU_EXTRA.iter()).copied().collect();
+    let count = std::sync::atomic::AtomicU64::new(0);
+    let tsets = subsets(&DU, 1, 3);
+    tsets.par_iter().for_each(|tset| {
+        let nt = tset.len();
+        let us = entry_sets(nt, &entries, 1);
+        let is = entry_sets(nt, &entries, 1);
+        for u in &us {
+            for i in &is {
+                let mut base: Vec<Tgt> = tset.iter().map(|p| Tgt::new(p)).collect();
+                for (ti, e) in u {
+                    base[*ti].uses.push(e.clone());
+                }
+                for (ti, e) in i {
+                    base[*ti].ignores.push(e.clone());
+                }
+                let cfg = Cfg { targets: base };
+                count.fetch_add(1, std::sync::atomic::Ordering::Relaxed);
+                rep.eval(chs.len() as u64 + 4);
+                if feature_nontrivial(&cfg, &chs) {
+                    rep.nontrivial(1);
+                }
+                for (sig, detail, extra) in check_cfg(&cfg, root, &chs, true) {
+                    rep.violation(&sig, 8_000_000 + (nt as u64) * 100_000 + ((u.len() + i.len()) as u64) * 1000, json!({"config": cfg.to_value(), "input": extra, "universe": "unicode"}), detail);
+                }
+            }
+        }
+    });
+    let c = count.load(std::sync::atomic::Ordering::Relaxed);
+    stage_desc.push(json!({"family": "non-ASCII universe (multi-byte characters in target/uses/ignores paths, prefix siblings e-acute / e-acute+s)", "configurations": c, "changes": chs.len(), "complete": true}));
+    c
+}
+
 pub fn run(tier: &str, root: &Path) -> Value {
     setup(root);
     let chs = change_universe();
@@ -500,6 +550,7 @@ pub fn run(tier: &str, root: &Path) -> Value {
         seen_stage_cfgs += c;
         stage_desc.push(json!({"family": "one entry shared by two or all targets (as uses or as ignores) x at most one entry of the other kind", "configurations": c, "complete": true}));
     }
+    seen_stage_cfgs += run_unicode(&rep, root, &mut stage_desc);
     // batching sweep on a fixed feature set of configurations
     let feature_cfgs = batching_cfgs();
     feature_cfgs.par_iter().enumerate().for_each(|(k, cfg)| {
@@ -555,7 +606,12 @@ pub fn batching_cfgs() -> Vec<Cfg> {
 pub fn replay(case: &Value, root: &Path) -> Vec<(String, String)> {
     setup(root);
     let cfg = Cfg::from_value(&case["config"]);
-    let chs = change_universe();
+    let chs = if case["universe"] == "unicode" {
+        make_universe(root, &["caf\u{e9}", "caf\u{e9}s", "caf\u{e9}/\u{fc}", "b", "lib\u{e9}", "lib\u{e9}s", "caf"], &[]);
+        unicode_changes()
+    } else {
+        change_universe()
+    };
     let rep = Report::new();
     let mut d = check_cfg(&cfg, root, &chs, true);
     if case["input"].get("batch").is_some() {
